@@ -14,6 +14,7 @@ import (
 	"github.com/yuin/goldmark/renderer"
 	"github.com/yuin/goldmark/renderer/html"
 	"github.com/yuin/goldmark/text"
+	"github.com/yuin/goldmark/util"
 )
 
 // Cfg is one point of the built-in configuration lattice.
@@ -227,6 +228,56 @@ func (c Cfg) New() goldmark.Markdown {
 	return goldmark.New(goldmark.WithExtensions(c.Extenders()...),
 		goldmark.WithParserOptions(c.ParserOptions()...),
 		goldmark.WithRendererOptions(c.RendererOptions()...))
+}
+
+// Channels lists the ways NewVia can hand the same options to the library.
+var Channels = []string{"standard", "direct-constructors", "late-AddOptions", "split"}
+
+func (c Cfg) htmlOptions() []html.Option {
+	var ro []html.Option
+	if c.Unsafe {
+		ro = append(ro, html.WithUnsafe())
+	}
+	if c.XHTML {
+		ro = append(ro, html.WithXHTML())
+	}
+	if c.HardWraps {
+		ro = append(ro, html.WithHardWraps())
+	}
+	return ro
+}
+
+// NewVia builds an instance of this configuration through another registration channel of the public API:
+//
+//	0 standard:            goldmark.New(WithExtensions, WithParserOptions, WithRendererOptions)  (= New)
+//	1 direct-constructors: the parser and the renderer are built by hand (parser.NewParser with the default parser lists and
+//	                       the parser options, renderer.NewRenderer with html.NewRenderer(<html options>) at priority 1000)
+//	                       and handed over with WithParser/WithRenderer; only meaningful without extensions, because options
+//	                       given to html.NewRenderer are by design not propagated to the renderers of extensions
+//	2 late-AddOptions:     goldmark.New(WithExtensions) first, then Parser().AddOptions / Renderer().AddOptions
+//	3 split:               parser options through New, renderer options one AddOptions call each, in reverse order
+func (c Cfg) NewVia(ch int) goldmark.Markdown {
+	switch ch {
+	case 1:
+		po := append([]parser.Option{parser.WithBlockParsers(parser.DefaultBlockParsers()...),
+			parser.WithInlineParsers(parser.DefaultInlineParsers()...),
+			parser.WithParagraphTransformers(parser.DefaultParagraphTransformers()...)}, c.ParserOptions()...)
+		rd := renderer.NewRenderer(renderer.WithNodeRenderers(util.Prioritized(html.NewRenderer(c.htmlOptions()...), 1000)))
+		return goldmark.New(goldmark.WithParser(parser.NewParser(po...)), goldmark.WithRenderer(rd), goldmark.WithExtensions(c.Extenders()...))
+	case 2:
+		m := goldmark.New(goldmark.WithExtensions(c.Extenders()...))
+		m.Parser().AddOptions(c.ParserOptions()...)
+		m.Renderer().AddOptions(c.RendererOptions()...)
+		return m
+	case 3:
+		m := goldmark.New(goldmark.WithExtensions(c.Extenders()...), goldmark.WithParserOptions(c.ParserOptions()...))
+		ro := c.RendererOptions()
+		for i := len(ro) - 1; i >= 0; i-- {
+			m.Renderer().AddOptions(ro[i])
+		}
+		return m
+	}
+	return c.New()
 }
 
 // GoExpr returns Go source that builds this configuration (for generated replay tests).
